@@ -79,6 +79,11 @@ type caseJSON struct {
 	Observed   string            `json:"observed,omitempty"`
 	Readable   string            `json:"readable,omitempty"`
 	FindingKey string            `json:"finding_key,omitempty"`
+	// kind longline: text = pre + fill repeated n times + post (printed to Coq as a repeat term)
+	Pre  string `json:"pre_hex,omitempty"`
+	Post string `json:"post_hex,omitempty"`
+	Fill int    `json:"fill,omitempty"`
+	N    int    `json:"n,omitempty"`
 }
 
 func hx(s string) string { return hex.EncodeToString([]byte(s)) }
@@ -314,7 +319,7 @@ func wfUValue(s string) bool {
 // the implementation side
 // ---------------------------------------------------------------------------------------
 
-var syntaxErr = regexp.MustCompile(`invalid format for rule with operator|invalid operator for rule with operator|expected quoted string|expected terminating quote|invalid actions for rule with operator|unknown variable|attempting to select a value inside a non-selectable collection|unclosed quote|operator .* not found|invalid action "|rule id is missing|duplicated rule id|unknown directive|invalid line|backticks left open|expected options|empty rule|failed to readfile|cannot include more than`)
+var syntaxErr = regexp.MustCompile(`invalid format for rule with operator|invalid operator for rule with operator|expected quoted string|expected terminating quote|invalid actions for rule with operator|unknown variable|attempting to select a value inside a non-selectable collection|unclosed quote|operator .* not found|invalid action "|rule id is missing|duplicated rule id|unknown directive|invalid line|backticks left open|expected options|empty rule|failed to readfile|cannot include more than|line continuation at the end of the configuration|failed to read the configuration`)
 
 type observation struct {
 	Class string // ok | syntax | ext | panic
@@ -852,6 +857,37 @@ func (r *runner) addDesc(d Desc, mask []bool, v RVar, finding string) (string, o
 	return line, o
 }
 
+// addIntent: a text and the description it is meant to denote; the compiled dump must be what the
+// description compiles to (fails exactly on the listed findings, which carry their key)
+func (r *runner) addIntent(d Desc, text, finding string) {
+	o := observe(nil, text)
+	cj := caseJSON{Kind: "intent", Desc: &d, Text: hx(text), Observed: o.Class + " " + o.Err, Readable: readable(text), FindingKey: finding}
+	if o.Class == "panic" {
+		r.fail("c16-panic", "FromString panicked: "+o.Err, cj)
+		return
+	}
+	r.res.InputDistribution["intent_"+o.Class]++
+	r.add(fmt.Sprintf("CIntent %s %s %s", descTerm(d), vh.HxS(text), obsTerm(o)), cj, "I"+text, o.Class == "ok")
+}
+
+// addLongLine: a text with one very long run of a byte; the Coq term builds the run with repeat
+func (r *runner) addLongLine(pre string, fill byte, n int, post string) {
+	text := pre + strings.Repeat(string([]byte{fill}), n) + post
+	o := observe(nil, text)
+	cj := caseJSON{Kind: "longline", Pre: hx(pre), Post: hx(post), Fill: int(fill), N: n, Observed: o.Class + " " + o.Err}
+	if o.Class == "panic" {
+		r.fail("c16-panic", "FromString panicked: "+o.Err, cj)
+		return
+	}
+	r.oracle++
+	if n >= 65536 && o.Class == "ok" {
+		r.fail("c16-long-line-accepted", "a configuration with a physical line of 64 KiB or more was accepted (the rest of the text is ignored silently)", cj)
+	}
+	r.res.InputDistribution["longline_"+o.Class]++
+	term := fmt.Sprintf("CText [] (%s ++ repeat %s (N.to_nat %s) ++ %s)%%list %s", vh.HxS(pre), vh.N(int64(fill)), vh.N(int64(n)), vh.HxS(post), obsTerm(o))
+	r.add(term, cj, fmt.Sprintf("L%s|%d|%d|%s", pre, fill, n, post), true)
+}
+
 func actionsTerm(kv []seclang.VerifC16KV) string {
 	var items []string
 	for _, a := range kv {
@@ -1006,6 +1042,12 @@ func (r *runner) runDoc(doc json.RawMessage) {
 			v = *c.RVar
 		}
 		r.addDesc(*c.Desc, c.Mask, v, c.FindingKey)
+	case "intent":
+		if c.Desc != nil {
+			r.addIntent(*c.Desc, unhx(c.Text), c.FindingKey)
+		}
+	case "longline":
+		r.addLongLine(unhx(c.Pre), byte(c.Fill), c.N, unhx(c.Post))
 	case "actions":
 		r.addActions(unhx(c.Text))
 	case "split":
@@ -1307,5 +1349,10 @@ func (r *runner) generate(g *gen) {
 	}
 	r.addText(map[string]string{"a.conf": rule(1) + "\n", "b.conf": "Include a.conf\n" + rule(2) + " \\\n"}, "Include b.conf\n"+rule(3), "line", "")
 	r.addText(map[string]string{"a.conf": "Include a.conf\n"}, "Include a.conf\n", "line", "")
+	// the scanner's 64 KiB line limit (F54): below / at / above the limit, in a comment and in an argument
+	r.addLongLine(rule(1)+"\n# ", 'c', 65000, "\n"+rule(2)+"\n")
+	r.addLongLine(rule(1)+"\n# ", 'c', 70000, "\n"+rule(2)+"\n")
+	r.addLongLine(rule(1)+"\nSecRule ARGS \"@rx ", 'a', 66000, "\" \"id:2,deny\"\n"+rule(3)+"\n")
+	r.addLongLine("", ' ', 65536, rule(1)+"\n")
 	r.addText(map[string]string{"a.conf": rule(1) + " \\"}, "Include a.conf\n\"x\"\n", "line", "")
 }
